@@ -493,7 +493,94 @@ def run_manager_cases(kind: str, topo: dict, data: dict, cases: list[dict]) -> l
             tx = reqs.new_sender()
             manager = actor._component_manager  # pylint: disable=protected-access
             real_algo = getattr(manager, "_distribution_algorithm", None)
+            def observation(result: Any, calls: list, seen: dict, elapsed_us: int) -> dict:
+                obs: dict = {"calls": [[c, w] for c, w in calls], "type": type(result).__name__ if result is not None else None,
+                             "elapsed_us": elapsed_us, "dist": seen.get("dist"), "remaining": seen.get("remaining"),
+                             "tracker_updates": tracker.updates,
+                             "still_registered": len(actor._processing_tasks)}  # pylint: disable=protected-access
+                if isinstance(result, (Success, PartialFailure)):
+                    obs["succeeded_power"] = result.succeeded_power.as_watts()
+                    obs["succeeded"] = sorted(result.succeeded_components)
+                    obs["excess"] = result.excess_power.as_watts()
+                    obs["request_power"] = result.request.power.as_watts()
+                    if isinstance(result, PartialFailure):
+                        obs["failed_power"] = result.failed_power.as_watts()
+                        obs["failed"] = sorted(result.failed_components)
+                return obs
+
+            async def run_concurrent(cc: dict) -> dict:
+                """Several requests for DISJOINT component sets of this manager, request k sent `at_us` after the
+                first one — i.e. while the `set_power` calls of the others are pending.  Results are matched to
+                the requests by the `request` object they carry, the recorded calls by the component they address."""
+                subs = cc["reqs"]
+                loop = asyncio.get_running_loop()
+                api.calls = []
+                api.script = {int(k): v for sub in subs for k, v in sub["calls"].items()}
+                tracker.updates = []
+                seens: list[dict] = [{} for _ in subs]
+                if kind == "pv":
+                    for sub in subs:
+                        for i, b in sub["invs"]:
+                            await api.senders[int(i)].send(InverterDataWrapper(
+                                int(i), now, active_power_inclusion_lower_bound=_fl(b), active_power_inclusion_upper_bound=0.0))
+                    await _drain()
+                    comp_sets = [{int(i) for i, _ in sub["invs"]} | set(sub.get("extra_ids", [])) for sub in subs]
+                    call_owner = [{int(i) for i, _ in sub["invs"]} for sub in subs]
+                    # (iteration order of the working inverters matters for ties of the sort: keep each request's order)
+                    tracker.working = [i for sub in subs for i in sub.get("working", [j for j, _ in sub["invs"]])]
+                else:
+                    comp_sets = [{b for _, bats in sub["topo"] for b in bats} for sub in subs]
+                    call_owner = [{i for i, _ in sub["topo"]} for sub in subs]
+                    tracker.working = None if any(sub.get("working") is None for sub in subs) else \
+                        sorted({b for sub in subs for b in sub["working"]})
+
+                    def distribute(power: float, pairs: Any) -> Any:
+                        invs = {i.component_id for p in pairs for i in p.inverter}
+                        k = [n for n, own in enumerate(call_owner) if invs <= own and invs][0]
+                        stub = subs[k].get("stub")
+                        if stub is not None:
+                            r = algo.DistributionResult({int(i): _fl(w) for i, w in stub["dist"]}, _fl(stub["remaining"]))
+                        else:
+                            r = real_algo.distribute_power(power, pairs)
+                        seens[k]["dist"] = [[i, w] for i, w in r.distribution.items()]
+                        seens[k]["remaining"] = r.remaining_power
+                        return r
+
+                    manager._distribution_algorithm = mock.MagicMock()  # pylint: disable=protected-access
+                    manager._distribution_algorithm.distribute_power = distribute  # pylint: disable=protected-access
+                t0 = loop.time()
+                reqs: list[Any] = [None] * len(subs)
+                for k in sorted(range(len(subs)), key=lambda n: (subs[n].get("at_us", 0), n)):
+                    wait = t0 + subs[k].get("at_us", 0) / 1e6 - loop.time()
+                    if wait > 0:
+                        await asyncio.sleep(wait)
+                    reqs[k] = Request(power=Power.from_watts(_fl(subs[k]["P"])), component_ids=comp_sets[k],
+                                      adjust_power=subs[k].get("adjust", True))
+                    await tx.send(reqs[k])
+                results: list[Any] = [None] * len(subs)
+                got = [False] * len(subs)
+                stray = 0
+                deadline = loop.time() + 3 * TIMEOUT_US / 1e6
+                while not all(got) and loop.time() < deadline:
+                    try:
+                        r = await asyncio.wait_for(results_rx.receive(), timeout=deadline - loop.time())
+                    except asyncio.TimeoutError:
+                        break
+                    ks = [k for k, q in enumerate(reqs) if getattr(r, "request", None) is q and not got[k]]
+                    if ks:
+                        results[ks[0]], got[ks[0]] = r, True
+                    else:
+                        stray += 1
+                await _drain(4)
+                elapsed = round((loop.time() - t0) * 1e6)
+                return {"concurrent": [observation(results[k], [(c, w) for c, w in api.calls if c in call_owner[k]],
+                                                   seens[k], elapsed) for k in range(len(subs))],
+                        "stray_results": stray}
+
             for case in cases:
+                if case.get("kind") == "concurrent":
+                    out.append(await run_concurrent(case))
+                    continue
                 api.calls = []
                 api.script = {int(k): v for k, v in case["calls"].items()}
                 tracker.working = case.get("working")
@@ -528,19 +615,7 @@ def run_manager_cases(kind: str, topo: dict, data: dict, cases: list[dict]) -> l
                 except asyncio.TimeoutError:
                     result = None
                 await _drain(4)
-                obs: dict = {"calls": [[c, w] for c, w in api.calls], "type": type(result).__name__ if result is not None else None,
-                             "elapsed_us": round((asyncio.get_running_loop().time() - t0) * 1e6),
-                             "dist": seen.get("dist"), "remaining": seen.get("remaining"),
-                             "tracker_updates": tracker.updates,
-                             "still_registered": len(actor._processing_tasks)}  # pylint: disable=protected-access
-                if isinstance(result, (Success, PartialFailure)):
-                    obs["succeeded_power"] = result.succeeded_power.as_watts()
-                    obs["succeeded"] = sorted(result.succeeded_components)
-                    obs["excess"] = result.excess_power.as_watts()
-                    obs["request_power"] = result.request.power.as_watts()
-                    if isinstance(result, PartialFailure):
-                        obs["failed_power"] = result.failed_power.as_watts()
-                        obs["failed"] = sorted(result.failed_components)
+                obs = observation(result, api.calls, seen, round((asyncio.get_running_loop().time() - t0) * 1e6))
                 out.append(obs)
             await actor.stop()
 
